@@ -130,6 +130,27 @@ def task(u: Unit):
         u.static(f"task.isolated[{q} writes no shared object]", not writes, fn.qualname, f"assignments into shared arguments: {writes}")
 
 
+SEEDED_DASK_REPLAY = lambda w: {"code": """
+import numpy as np, dask, verif_probes as VP
+import pyxel
+from pyxel.pipelines import DetectionPipeline, ModelFunction
+from pyxel.exposure import Readout
+from pyxel.observation import Observation, ParameterValues
+VIOLATED, DETAIL = False, 'a seeded parallel observation equals the sequential one for every seed (0 included)'
+def run(seed, with_dask):
+    pipe = DetectionPipeline(photon_collection=[ModelFunction(func='pyxel.models.photon_collection.illumination', name='ill', arguments={'level': 100.0}),
+                                                ModelFunction(func='pyxel.models.photon_collection.shot_noise', name='sn', arguments={})])
+    obs = Observation(parameters=[ParameterValues(key='pipeline.photon_collection.ill.arguments.level', values=[100.0, 1000.0, 10000.0])], readout=Readout(times=[1.0]), with_dask=with_dask, pipeline_seed=seed)
+    with dask.config.set(scheduler='synchronous'):
+        dt = pyxel.run_mode(mode=obs, detector=VP.detector(), pipeline=pipe, with_inherited_coords=True)
+        return np.asarray(dt['/bucket/photon'].compute() if hasattr(dt['/bucket/photon'], 'compute') else dt['/bucket/photon']).squeeze()
+for seed in (0, 1234, 7):
+    a, b = run(seed, False), run(seed, True)
+    if a.shape != b.shape or not np.array_equal(a, b):
+        VIOLATED, DETAIL = True, f'pipeline_seed={seed}: sequential photon {a.ravel()[:3]} vs parallel (dask) {b.ravel()[:3]}'; break
+""", "expect": "the shared arguments (seed, outputs, readout, processor, names) reach every dask task: seeded parallel == seeded sequential, seed 0 included"}
+
+
 @unit("C07", "fileindex")
 def fileindex(u: Unit):
     fn = u.fn(f"{OD}::run_pipelines_with_dask")
@@ -155,7 +176,7 @@ def fileindex(u: Unit):
              f"apply_ufunc(task, parameters chunked one cell per task, file indices): {pos[:3]}")
     kd = DU.dict_arg(fn.node, next((k.value for k in cs[0].keywords if k.arg == "kwargs"), None)) if len(cs) == 1 else None
     want = {"dimension_names": "dim_names", "processor": "processor", "outputs": "outputs", "readout": "readout", "pipeline_seed": "pipeline_seed"}
-    u.static("task.shared_arguments_forwarded", kd is not None and all(kd.get(k) == v for k, v in want.items()), fn.qualname, f"kwargs of apply_ufunc: {kd}")
+    u.static("task.shared_arguments_forwarded", kd is not None and all(kd.get(k) == v for k, v in want.items()), fn.qualname, f"kwargs of apply_ufunc: {kd}", replay=SEEDED_DASK_REPLAY)
 
 
 FILEINDEX_REPLAY = lambda w: {"code": """
